@@ -32,8 +32,9 @@ RULE = ("fault-free run of 5 distinguishable operations (reads of distinct value
         "connection.  non-trivial = a run in which a fault actually took effect (stream cut before its end, frame dropped)")
 BOUNDS = {
     "quick": "connector.pipeline(depth 3) without and with bundling (multiple=100): all S-cuts x {eof, stall} whole + byte-wise eof, "
-             "all Q-cuts (swallow), all drops; connector.synchronous: all S-cuts x {eof, stall}, drops; proxy (depth 3, `with via:` + "
-             "read, 3 uses): all S-cuts x {eof, stall}, drops, 13x13 fault pairs; pipeline under lazy-server scheduling: all S-cuts (stall); "
+             "all Q-cuts (swallow; without bundling also EPIPE), all drops; connector.synchronous, operate(depth 3, validating) and "
+             "operate(depth 0): all S-cuts x {eof, stall}, drops; proxy (depth 3, `with via:` + "
+             "read, 3 uses): all S-cuts x {eof, stall}, drops, 13x13 fault pairs; proxy with bundling and proxy depth 0: all S-cuts (eof), drops; pipeline under lazy-server scheduling: all S-cuts (stall); "
              "poll.run: the reduced menu (13 faults) and 16 pairs",
     "thorough": "subjects pipeline / synchronous / operate(depth 3, validating) / operate(depth 0) x multiple {0, 100} x all S-cuts x "
                 "{eof, stall} x {whole, byte} + all Q-cuts x {swallow, EPIPE} + all drops; pipeline also under lazy-server scheduling; "
@@ -522,6 +523,9 @@ def run(ctx):
             conn_items("pipeline", mult, "eager", [("eof", "whole"), ("stall", "whole"), ("eof", "byte")], ["swallow"], ["whole"])
         conn_items("synchronous", 0, "eager", [("eof", "whole"), ("stall", "whole")], [], ["whole"])
         conn_items("pipeline", 0, "lazy", [("stall", "whole")], [], [])
+        conn_items("pipeline", 0, "eager", [], ["error"], [])
+        conn_items("operate3", 0, "eager", [("eof", "whole"), ("stall", "whole")], [], ["whole"])
+        conn_items("operate0", 0, "eager", [("eof", "whole"), ("stall", "whole")], [], ["whole"])
     else:
         for subject in SUBJECTS:
             for mult in (0, 100):
@@ -546,6 +550,8 @@ def run(ctx):
 
     if quick:
         frames, tx = proxy_items(3, 0, [("eof", "whole"), ("stall", "whole")], [], ["whole"])
+        proxy_items(3, 100, [("eof", "whole")], [], ["whole"])
+        proxy_items(0, 0, [("eof", "whole")], [], ["whole"])
     else:
         frames, tx = proxy_items(3, 0, [(t, m) for t in ("eof", "stall") for m in ("whole", "byte")], ["swallow", "error"], ["whole"])
         proxy_items(3, 100, [(t, m) for t in ("eof", "stall") for m in ("whole", "byte")], ["swallow"], ["whole"])
